@@ -9,6 +9,7 @@ import (
 	"math/rand"
 	"os"
 	"path/filepath"
+	"sync"
 	"time"
 
 	"github.com/scottyw/tetromino/gameboy"
@@ -331,9 +332,10 @@ func runRun(id, rom string, mode string, at int, audio bool) *trace.Scenario {
 	perr := machine.Try(func() {
 		ctx, cancel := context.WithCancel(context.Background())
 		if mode == "deadline" {
-			// the context ends because its deadline passes: that is a cancellation too
-			cancel()
-			ctx, cancel = context.WithTimeout(context.Background(), time.Duration(at)*4*time.Millisecond)
+			// the context ends because its deadline passes (Err() = DeadlineExceeded): that is a cancellation too. The
+			// expiry is tied to an emulated cycle (a context of our own), so that the scenario does not depend on the host's clock
+			dc := &deadlineCtx{done: make(chan struct{})}
+			ctx, cancel = dc, dc.expire
 		}
 		defer cancel()
 		requested := false
@@ -348,10 +350,6 @@ func runRun(id, rom string, mode string, at int, audio bool) *trace.Scenario {
 				cancel()
 				sc.Ev = append(sc.Ev, []any{"req"})
 			}
-			if mode == "deadline" && ctx.Err() != nil && !requested {
-				requested = true
-				sc.Ev = append(sc.Ev, []any{"req"})
-			}
 			if mode == "close" && int(n) == at && !requested {
 				requested = true
 				sc.Ev = append(sc.Ev, []any{"req"})
@@ -361,7 +359,7 @@ func runRun(id, rom string, mode string, at int, audio bool) *trace.Scenario {
 		total := 0
 		gameboy.VerifCycleObserver = func(g *gameboy.Gameboy, mtick int) {
 			total++
-			if mode == "cancelmid" && !requested && total == (at-1)*17556+1+(at*7919)%17000 {
+			if (mode == "cancelmid" || mode == "deadline") && !requested && total == (at-1)*17556+1+(at*7919)%17000 {
 				requested = true
 				cancel()
 				sc.Ev = append(sc.Ev, []any{"req"})
@@ -378,10 +376,6 @@ func runRun(id, rom string, mode string, at int, audio bool) *trace.Scenario {
 			cancel()
 			return
 		}
-		if mode == "deadline" && !requested && ctx.Err() != nil {
-			// the deadline passed between the last frame callback and Run's own check
-			sc.Ev = append(sc.Ev, []any{"req"})
-		}
 		d := gb.VerifDisplay()
 		spk := 0
 		if s := gb.VerifSpeakers(); s != nil {
@@ -393,6 +387,31 @@ func runRun(id, rom string, mode string, at int, audio bool) *trace.Scenario {
 		sc.Ev = append(sc.Ev, []any{"panic", perr})
 	}
 	return sc
+}
+
+// deadlineCtx is a context that ends with DeadlineExceeded when expire is called.
+type deadlineCtx struct {
+	done chan struct{}
+	once sync.Once
+	mu   sync.Mutex
+	err  error
+}
+
+func (d *deadlineCtx) Deadline() (time.Time, bool) { return time.Time{}, false }
+func (d *deadlineCtx) Done() <-chan struct{}       { return d.done }
+func (d *deadlineCtx) Value(key any) any           { return nil }
+func (d *deadlineCtx) Err() error {
+	d.mu.Lock()
+	defer d.mu.Unlock()
+	return d.err
+}
+func (d *deadlineCtx) expire() {
+	d.once.Do(func() {
+		d.mu.Lock()
+		d.err = context.DeadlineExceeded
+		d.mu.Unlock()
+		close(d.done)
+	})
 }
 
 func systemMain(c *Ctx) {
